@@ -110,7 +110,7 @@ func commercialCheck(val string) error {
 
 	// Establish check digits by subtracting 97 from total until negative.
 	checkDigit := sum
-	for checkDigit > 0 {
+	for checkDigit >= 0 { // zero is not negative yet
 		checkDigit = checkDigit - 97
 	}
 
@@ -129,7 +129,7 @@ func commercialCheck(val string) error {
 	}
 
 	// Now try the new method by subtracting 55 from the check digit if we can - else add 42
-	if checkDigit >= 55 {
+	if checkDigit > 55 { // 55 itself becomes 97, check digits are never 00
 		checkDigit = checkDigit - 55
 	} else {
 		checkDigit = checkDigit + 42
